@@ -61,6 +61,88 @@ let layout_string (fo : frag_out) : string =
   | [] -> "-"
   | l -> S.concat "," (L.map (fun ((id, w), c) -> dec_of_n id ^ ":" ^ dec_of_n w ^ ":" ^ dec_of_n c) l)
 
+
+(* ---- the per-sample fetch (G lines): tables of C09Model, file bytes ---- *)
+let ten = n_of_int 10
+let n_of_bigdec (s : string) : coq_N =
+  let acc = ref N0 in
+  S.iter (fun c -> acc := BinNat.N.add (BinNat.N.mul !acc ten) (n_of_int (Char.code c - 48))) s;
+  !acc
+let bigdec_of_n (n : coq_N) : string =
+  (* values here fit OCaml ints except hostile co64 offsets, which never reach the output *)
+  string_of_int (int_of_n n)
+let ncsv (s : string) : coq_N list = if s = "-" || s = "" then [] else L.map n_of_bigdec (split_on ',' s)
+let zcsv (s : string) : coq_Z list = if s = "-" || s = "" then [] else L.map z_of_dec (split_on ',' s)
+
+let fetch_tables (f : string array) : C09Model.tables =
+  let open C09Model in
+  let c, d = match split_on ';' f.(0) with [c; d] -> (ncsv c, ncsv d) | _ -> failwith "stts" in
+  let ctts = match split_on ';' f.(1) with
+    | ["N"] -> None
+    | [e; o] -> Some { ct_end = ncsv e; ct_off = zcsv o }
+    | _ -> failwith "ctts" in
+  let entries = if f.(2) = "-" then [] else
+      L.map (fun e -> match split_on ':' e with
+          | [a; b; c] -> { first_chunk = n_of_bigdec a; spc = n_of_bigdec b; first_sample = n_of_bigdec c }
+          | _ -> failwith "stsc") (split_on ',' f.(2)) in
+  let stsz = match split_on ';' f.(3) with
+    | [u; n; s] -> { sz_uniform = n_of_bigdec u; sz_number = n_of_bigdec n; sz_sizes = ncsv s }
+    | _ -> failwith "stsz" in
+  let stco, co64 = match split_on ';' f.(4) with
+    | ["N"] -> (None, None)
+    | ["S"; o] -> (Some (ncsv o), None)
+    | ["C"; o] -> (None, Some (ncsv o))
+    | ["B"; o; o2] -> (Some (ncsv o), Some (ncsv o2))
+    | _ -> failwith "offsets" in
+  let opt s = match split_on ';' s with ["N"] -> None | ["Y"; l] -> Some (ncsv l) | _ -> failwith "opt" in
+  { t_stts_count = c; t_stts_delta = d; t_ctts = ctts;
+    t_stsc = { sc_entries = entries; sc_single = n_of_int 1; sc_ids = [] };
+    t_stsz = stsz; t_stco = stco; t_co64 = co64; t_stss = opt f.(5); t_sdtp = opt f.(6) }
+
+let full_string (r : C05Model.fullsample list res) : string =
+  match r with
+  | Ok [] -> "ok:-"
+  | Ok l -> "ok:" ^ S.concat ";" (L.map (fun (x : C05Model.fullsample) ->
+      let s = x.C05Model.fs_s in
+      Printf.sprintf "%s.%s.%s.%d.%s.%s" (dec_of_n s.C05Model.s_flags) (dec_of_n s.C05Model.s_dur)
+        (dec_of_n s.C05Model.s_size) (int_of_z s.C05Model.s_cto) (dec_of_n x.C05Model.fs_dts)
+        (hex_of_bytes x.C05Model.fs_data)) l)
+  | r -> class_of r
+
+let meta_string (r : C05Model.sample list res) : string =
+  match r with
+  | Ok [] -> "ok:-"
+  | Ok l -> "ok:" ^ S.concat ";" (L.map (fun (s : C05Model.sample) ->
+      Printf.sprintf "%s.%s.%s.%d" (dec_of_n s.C05Model.s_flags) (dec_of_n s.C05Model.s_dur)
+        (dec_of_n s.C05Model.s_size) (int_of_z s.C05Model.s_cto)) l)
+  | r -> class_of r
+
+let fetch_case (f : string array) : string option =
+  (* f = [| G; id; mode; a; b; stts; ctts; stsc; stsz; offs; stss; sdtp; mstart; mlen; file; full; meta; copy; flags |] *)
+  let tb = fetch_tables (Array.sub f 5 7) in
+  let a = n_of_bigdec f.(3) and b = n_of_bigdec f.(4) in
+  let pf = { C11FetchModel.pf_bytes = bytes_of_hex f.(14); pf_mdat_start = n_of_bigdec f.(12);
+             pf_mdat_len = n_of_bigdec f.(13); pf_lazy = (f.(2) = "lazy") } in
+  let m_full = full_string (C11FetchModel.fetch_interval pf tb a b) in
+  let m_meta = meta_string (C11FetchModel.fetch_meta_interval tb a b) in
+  let m_copy = match C11FetchModel.copy_media_data pf tb a b with
+    | Ok l -> "ok:" ^ hex_of_bytes l | r -> class_of r in
+  let m_flags = match C09Model.create_sample_flags tb.C09Model.t_stss tb.C09Model.t_sdtp a with
+    | Ok x -> "ok:" ^ dec_of_n x | r -> class_of r in
+  let valid = S.length f.(1) > 1 && f.(1).[1] = 'v' in
+  if m_full <> f.(15) then Some ("fetch-full model=" ^ m_full)
+  else if m_meta <> f.(16) then Some ("fetch-meta model=" ^ m_meta)
+  else if m_copy <> f.(17) then Some ("copy-media-data model=" ^ m_copy)
+  else if m_flags <> f.(18) then Some ("translate-flags model=" ^ m_flags)
+  else if valid && not (C09Spec.consistent tb && C11Spec.data_ok pf tb && C11Spec.one_offset_box tb) then
+    Some "hypotheses model=false (generator promised consistent tables pointing into the file)"
+  else if valid && f.(3) = "1" && int_of_n b = int_of_n (C09Spec.nsamples tb) &&
+          (match C11FetchModel.fetch_interval pf tb a b with
+           | Ok l -> L.map (fun x -> Some x) l <> C11Spec.expansion pf tb || int_of_n b <> L.length l
+           | _ -> true) then
+    Some "expansion model-fetch-differs-from-expansion"
+  else None
+
 let opt_n (s : string) : coq_N option = if s = "x" then None else Some (n_of_dec s)
 
 let () =
@@ -146,4 +228,10 @@ let () =
         let m = Printf.sprintf "ok|%s|1=%s;2=%s" (layout_string fo) (rd (n_of_int 1)) (rd (n_of_int 2)) in
         if m = obs then Printf.printf "OK %s\n" id
         else Printf.printf "MISMATCH %s combine model=%s\n" id m
+      | "G" :: id :: _ ->
+        let f = Array.of_list (split_on '\t' line) in
+        if Array.length f <> 19 then Printf.printf "BADLINE %s\n" line
+        else (match fetch_case f with
+            | None -> Printf.printf "OK %s\n" id
+            | Some m -> Printf.printf "MISMATCH %s %s\n" id m)
       | _ -> Printf.printf "BADLINE %s\n" line)
